@@ -758,11 +758,38 @@ func writeEvidence(path string, ps *PropSpec, tier string, seed int, obs []*Obli
 		Abstracted []string `json:"abstracted_calls,omitempty"`
 		Trusted    bool     `json:"trusted,omitempty"`
 		OutOfReach string   `json:"out_of_reach,omitempty"`
+		Assumed    []string `json:"assumed_preconditions,omitempty"`
+	}
+	// every function is verified under its own preconditions: they are assumptions of that function's obligations and
+	// are established where a pre[...] / spawn[...] / ...#created obligation of a caller discharges
+	establishedSomewhere := func(fnShort, label string) bool {
+		last := lastName(fnShort)
+		for _, o := range obs {
+			if (o.Kind == "pre" || o.Kind == "spawn") && o.Status == "discharged" && strings.Contains(o.Name, "["+last+"."+label) {
+				return true
+			}
+		}
+		return false
 	}
 	var fns []fnRec
 	externs := map[string]bool{}
 	for _, r := range reports {
-		fns = append(fns, fnRec{shortFuncName(r.Key), strings.TrimPrefix(r.File, prog.RepoDir+"/"), r.Line, r.SrcHash, r.Instrs, r.Paths, r.Abstracted, r.Trusted, r.OutOfReach})
+		var assumed []string
+		if fc := prog.Contracts[r.Key]; fc != nil && !r.Trusted {
+			add := func(kind string, cs []*Clause) {
+				for _, c := range cs {
+					note := "not established at any call site checked in this run (entry-point or modelling assumption, or established under another property)"
+					if establishedSomewhere(shortFuncName(r.Key), c.Label) {
+						note = "established at the call sites checked in this run"
+					}
+					assumed = append(assumed, kind+" ["+c.Label+"]: "+note)
+				}
+			}
+			add("requires", fc.Requires)
+			add("captured_requires", fc.CapturedRequires)
+			add("entry_assume", fc.EntryAssumes)
+		}
+		fns = append(fns, fnRec{shortFuncName(r.Key), strings.TrimPrefix(r.File, prog.RepoDir+"/"), r.Line, r.SrcHash, r.Instrs, r.Paths, r.Abstracted, r.Trusted, r.OutOfReach, assumed})
 		for _, e := range r.Externs {
 			externs[e] = true
 		}
@@ -806,6 +833,7 @@ func writeEvidence(path string, ps *PropSpec, tier string, seed int, obs []*Obli
 		"pointer parameters and receivers are non-nil (A-nonnil); calls without a contract are replaced by havoc of their computed write set",
 		"external (non-module) callees do not mutate module objects reachable only through interface-typed arguments (A-ext-readonly)",
 	}, ps.Assume...)
+	assumptions = append(assumptions, "every function under contract is verified assuming its own requires / captured_requires / entry_assume clauses (coverage.functions[].assumed_preconditions says for each whether a call site checked in this run establishes it); preconditions of entry points (RunBuild, BuildGraph, Walk, the query commands, lemma hypotheses) are modelling assumptions")
 	assumptions = append(assumptions, "contracts name local variables of the functions they annotate; a local that was renamed since the baseline is followed by its position and type in the function's table of local cells (baseline/<id>.locals)")
 	for _, rn := range prog.Renames {
 		assumptions = append(assumptions, "renamed local followed by position: "+rn)
